@@ -1,72 +1,982 @@
-//! Block `c05` (exploration stage)
+//! Block `c05` — property C05: "dispatch returns a complete, valid, memory-safe plan or an explicit error".
+//!
+//!  1. the private sentinel searches of `meet_pass/train_disp/free_path.rs` are called through the
+//!     `verif-hooks` wrappers on generated and adversarial arguments; answer (result / panic kind) is what
+//!     the Lean model (`Altrios/FreePath.lean`) must reproduce; arguments for which the model predicts an
+//!     out-of-range RAW access are executed in a child process (the debug build's UB check aborts);
+//!  2. the real `run_dispatch` runs on generated scenarios (watchdog thread: a hang is a finding); the
+//!     returned plan is re-checked clause by clause in Rust (`check_route`, never consulting the model) and
+//!     is also sent — together with mutated, mostly invalid copies — through the Lean decision procedure
+//!     `planOk`, whose verdict must equal the Rust re-check;
+//!  3. the outer loop of `run_dispatch` is re-driven through the public `TrainDisp` API (`manual_dispatch`,
+//!     a line-by-line copy whose result must equal the real function's result) to observe the queue
+//!     bookkeeping (pop order, parked list, finished set), which the Lean queue model must reproduce.
 use crate::dispgen::*;
 use crate::prng::Rng;
 use crate::proto::*;
+use altrios_core::meet_pass::disp_structs::*;
 use altrios_core::meet_pass::dispatch::run_dispatch;
+use altrios_core::meet_pass::est_times::EstTime;
+use altrios_core::meet_pass::train_disp::free_path_verif_hooks as fp;
+use altrios_core::meet_pass::train_disp::{FreePathStatus, TrainDisp};
 use altrios_core::prelude::*;
+use altrios_core::track::*;
+use altrios_core::train::LinkIdxTime;
+use altrios_core::uc;
 use altrios_core::validate::*;
 use serde_json::json;
+use std::num::NonZeroU16;
 
-fn gen_sc(r: &mut Rng) -> Scenario {
-    let class = r.below(4);
-    if class == 0 { return gen_scenario(r, 8); }
-    let n_main = r.usize(5, 14);
+const P: &str = "C05";
+
+// ------------------------------------------------------------------------------------------------
+// helpers
+// ------------------------------------------------------------------------------------------------
+
+fn tidx(v: u64) -> TrainIdx {
+    NonZeroU16::new(v as u16)
+}
+fn tval(t: &TrainIdx) -> usize {
+    t.map(|x| x.get() as usize).unwrap_or(0)
+}
+fn nats(xs: &[usize]) -> String {
+    seq(xs, |x| x.to_string())
+}
+
+fn panic_kind(msg: &str) -> &'static str {
+    if msg.contains("assertion") {
+        "assert"
+    } else if msg.contains("index out of bounds")
+        || msg.contains("out of range for slice")
+        || msg.contains("slice index starts at")
+        || msg.contains("range end index")
+        || msg.contains("range start index")
+    {
+        "index"
+    } else if msg.contains("with overflow") {
+        "overflow"
+    } else if msg.contains("unreachable") {
+        "unreachable"
+    } else {
+        "other"
+    }
+}
+
+/// answer tokens of a guarded call
+fn answer<T>(res: &Option<T>, g: impl Fn(&T) -> String) -> String {
+    match res {
+        Some(v) => format!("ok {}", g(v)),
+        None => format!("panic {}", panic_kind(&last_panic())),
+    }
+}
+fn outcome_tag<T>(res: &Option<T>) -> String {
+    if res.is_some() { "ok".to_string() } else { format!("panic_{}", panic_kind(&last_panic())) }
+}
+
+// ------------------------------------------------------------------------------------------------
+// 1. sentinel searches
+// ------------------------------------------------------------------------------------------------
+
+fn op_link_opt(ctx: &mut Ctx, r: &mut Rng) {
+    let big = r.chance(0.15);
+    let k = if big { 60 } else { r.usize(3, 24) };
+    let nb = r.usize(0, 5);
+    let blocking: Vec<usize> = (0..nb).map(|_| r.usize(1, k)).collect();
+    let np = r.usize(0, 8);
+    let on_path: Vec<usize> = (0..np).map(|_| r.usize(1, k)).collect();
+    let bl: Vec<LinkIdx> = blocking.iter().map(|&x| LinkIdx::new(x as u32)).collect();
+    let op: Vec<LinkIdx> = on_path.iter().map(|&x| LinkIdx::new(x as u32)).collect();
+    let res = guard(|| fp::verif_link_opt_type_new(&bl, &op));
+    let ans = answer(&res, |t| format!("{} {} {}", t.0, t.1, t.2));
+    ctx.op(P, "c05_link_opt", &format!("{} {}", nats(&blocking), nats(&on_path)), &ans);
+    match res {
+        Some(t) => {
+            ctx.count(&format!("c05.link_opt.kind{}", t.0));
+            // the unstated precondition of find_train_intersect's Range arm: min fits in u32
+            ctx.checked(P, "link_opt_min_fits_u32");
+            if t.1 > u32::MAX as usize {
+                ctx.fail(P, "link_opt_min_fits_u32", "link_opt", format!("LinkOptType::new produced min {}", t.1), json!({"blocking": blocking, "on_path": on_path}));
+            }
+        }
+        None => ctx.count("c05.link_opt.panic"),
+    }
+}
+
+fn op_calc_sent(ctx: &mut Ctx, r: &mut Rng) {
+    let n = r.usize(0, 8);
+    let s = r.below(4) as usize;
+    let class = r.below(10);
+    let mut dn: Vec<(usize, usize)> = vec![];
+    let mut d = 0usize;
+    for _ in 0..n {
+        if r.chance(0.6) {
+            d += r.usize(0, 3);
+        }
+        dn.push((r.usize(0, 3), d));
+    }
+    if class < 7 && n > 0 {
+        // the caller's discipline: the ending sentinel carries the searched train index
+        dn[n - 1].0 = s;
+        if class < 5 {
+            dn[n - 1].1 = d + 1 + r.usize(0, 2);
+        }
+    }
+    let div_idx = if class == 9 { r.usize(0, n + 2) } else if n > 0 { r.usize(0, n - 1) } else { 0 };
+    let nodes: Vec<DivergeNode> = dn.iter().map(|&(t, d)| DivergeNode::new(tidx(t as u64), tidx(d as u64))).collect();
+    let res = guard(|| fp::verif_calc_idx_sentinels(div_idx, tidx(s as u64), &nodes));
+    let ans = answer(&res, |v| format!("{} {}", v.0, v.1));
+    ctx.op(P, "c05_calc_sent", &format!("{} {} {}", div_idx, s, seq(&dn, |x| format!("{} {}", x.0, x.1))), &ans);
+    ctx.count(&format!("c05.calc_sent.{}", outcome_tag(&res)));
+    if let Some((d_s, j)) = res {
+        // the sentinel found is the first node at/after div_idx with the train index; j is just past its group
+        ctx.checked(P, "calc_sent_first_match");
+        let good = match (div_idx..n).find(|&i| dn[i].0 == s) {
+            Some(i) => dn[i].1 == d_s && j > i && j <= n && (i + 1..j).all(|k| dn[k].1 == d_s) && (j == n || j == i + 1 && dn[j].1 != d_s || j > i + 1 && dn[j].1 != d_s),
+            None => false,
+        };
+        if !good {
+            ctx.fail(P, "calc_sent_first_match", "calc_sent", format!("calc_idx_sentinels({}, {}, {:?}) = ({}, {})", div_idx, s, dn, d_s, j), json!({"div_idx": div_idx, "s": s, "div_nodes": dn}));
+        }
+        if j > (div_idx + 1) { ctx.count("c05.calc_sent.searched_past_start"); }
+    }
+}
+
+/// `find_train_intersect` on arguments for which no raw access can leave the buffer
+fn op_find_int(ctx: &mut Ctx, r: &mut Rng) {
+    let k = r.usize(3, 20);
+    let n = r.usize(1, 12);
+    let mut path: Vec<usize> = (0..n).map(|_| if r.chance(0.4) { 0 } else { r.usize(1, k) }).collect();
+    if r.chance(0.8) {
+        path[n - 1] = 0; // ending sentinel LINK_IDX_NA
+    }
+    let class = r.below(12);
+    let blen = if class == 0 { r.usize(0, k) } else { k + 1 };
+    let blocked: Vec<usize> = (0..blen).map(|_| if r.chance(0.25) { r.usize(1, 3) } else { 0 }).collect();
+    // link_opt_type: mostly what LinkOptType::new gives for links around the path
+    let lot: (u8, usize, usize) = if class <= 7 {
+        let nb = r.usize(1, 4);
+        let blocking: Vec<LinkIdx> = (0..nb).map(|_| LinkIdx::new(if r.chance(0.7) { path[r.usize(0, n - 1)].max(1) as u32 } else { r.usize(1, k) as u32 })).collect();
+        let on_path: Vec<LinkIdx> = path.iter().filter(|&&x| x != 0).map(|&x| LinkIdx::new(x as u32)).collect();
+        guard(|| fp::verif_link_opt_type_new(&blocking, &on_path)).unwrap_or((3, 0, 0))
+    } else if class == 8 {
+        (2, r.usize(0, k + 3), r.usize(0, 18))
+    } else if class == 9 {
+        (1, r.usize(0, k + 1), 0)
+    } else if class == 10 {
+        (3, 0, 0)
+    } else {
+        (r.below(4) as u8, r.usize(0, k), r.usize(0, 16))
+    };
+    let idx_sentinel = if r.chance(0.1) { r.usize(0, n + 2) } else { r.usize(0, n - 1) };
+    let idx_split = if r.chance(0.15) { r.usize(0, n + 1) } else { r.usize(0, idx_sentinel) };
+    let lot = if lot.0 == 1 { (1, lot.1, 0) } else if lot.0 == 0 || lot.0 == 3 { (lot.0, 0, 0) } else { lot };
+    let mut p: Vec<LinkIdx> = path.iter().map(|&x| LinkIdx::new(x as u32)).collect();
+    let bl: Vec<TrainIdx> = blocked.iter().map(|&x| tidx(x as u64)).collect();
+    let res = guard(|| fp::verif_find_train_intersect(idx_split, idx_sentinel, lot, &mut p, &bl));
+    let after: Vec<usize> = p.iter().map(|x| x.idx()).collect();
+    let ans = answer(&res, |v| format!("{} {}", v, nats(&after)));
+    let args = format!("{} {} {} {} {} {} {}", idx_split, idx_sentinel, lot.0, lot.1, lot.2, nats(&path), nats(&blocked));
+    ctx.op(P, "c05_find_int", &args, &ans);
+    ctx.count(&format!("c05.find_int.kind{}.{}", lot.0, outcome_tag(&res)));
+    if let Some(v) = res {
+        if idx_split < idx_sentinel {
+            ctx.count("c05.find_int.searched");
+            if v > idx_split { ctx.count("c05.find_int.advanced"); }
+            if v == idx_sentinel { ctx.count("c05.find_int.hit_sentinel"); }
+        }
+        let input = json!({"idx_split": idx_split, "idx_sentinel": idx_sentinel, "link_opt": lot, "path": path, "blocked": blocked});
+        ctx.checked(P, "find_int_sentinel_restored");
+        if after != path {
+            ctx.fail(P, "find_int_sentinel_restored", "find_int", format!("link_idx_path changed: {:?} -> {:?}", path, after), input.clone());
+        }
+        ctx.checked(P, "find_int_result_in_range");
+        let (lo, hi) = (idx_split, idx_split.max(idx_sentinel));
+        if v < lo || v > hi {
+            ctx.fail(P, "find_int_result_in_range", "find_int", format!("result {} outside [{}, {}]", v, lo, hi), input);
+        }
+    }
+}
+
+fn view_tok(v: (usize, usize)) -> String {
+    format!("{} {}", v.0, v.1)
+}
+fn mk_view(v: (usize, usize)) -> TrainIdxsView {
+    TrainIdxsView::new(v.0 as u32, v.1 as u32)
+}
+
+fn gen_view(r: &mut Rng, len: usize, adversarial: bool) -> (usize, usize) {
+    if adversarial && r.chance(0.5) {
+        (r.usize(0, len + 2), r.usize(0, len + 3))
+    } else {
+        let b = r.usize(0, len);
+        (b, r.usize(b, len))
+    }
+}
+
+/// which: 0 add_blocking_trains, 1 add_all_blocking_trains, 2 concat_train_idx_views
+fn op_views(ctx: &mut Ctx, r: &mut Rng, which: u8) {
+    let len = r.usize(1, 10);
+    let tb: Vec<usize> = (0..len).map(|i| if i == 0 { 0 } else { r.usize(1, 5) }).collect();
+    let adversarial = r.chance(0.3);
+    let (v1, v2) = match which {
+        0 => {
+            // base view positioned at the end of the buffer (the function's contract), unless adversarial
+            let base = if adversarial && r.chance(0.6) { gen_view(r, len, true) } else { (r.usize(0, len), len) };
+            (base, gen_view(r, len, adversarial))
+        }
+        _ => {
+            let a = gen_view(r, len, adversarial);
+            let b = if r.chance(0.3) { (r.usize(0, len), len) } else { gen_view(r, len, adversarial) };
+            if r.chance(0.5) { (a, b) } else { (b, a) }
+        }
+    };
+    let mut buf: Vec<TrainIdx> = tb.iter().map(|&x| tidx(x as u64)).collect();
+    let (a, b) = (mk_view(v1), mk_view(v2));
+    let res = guard(|| match which {
+        0 => fp::verif_add_blocking_trains(&mut buf, &a, &b),
+        1 => fp::verif_add_all_blocking_trains(&mut buf, &a, &b),
+        _ => fp::verif_concat_train_idx_views(&mut buf, &a, &b),
+    });
+    let after: Vec<usize> = buf.iter().map(tval).collect();
+    let ans = answer(&res, |v| format!("{} {} {}", nats(&after), v.idx_begin, v.idx_end));
+    let name = ["c05_add_block", "c05_add_all", "c05_concat"][which as usize];
+    ctx.op(P, name, &format!("{} {} {}", nats(&tb), view_tok(v1), view_tok(v2)), &ans);
+    ctx.count(&format!("c05.views.{}.{}", name, outcome_tag(&res)));
+    if let Some(v) = res {
+        let input = json!({"fn": name, "trains_blocking": tb, "view1": v1, "view2": v2});
+        ctx.checked(P, "views_prefix_preserved");
+        if after.len() < len || after[..len] != tb[..] {
+            ctx.fail(P, "views_prefix_preserved", name, format!("buffer prefix changed: {:?} -> {:?}", tb, after), input.clone());
+        }
+        ctx.checked(P, "views_result_in_buffer");
+        let (vb, ve) = (v.idx_begin as usize, v.idx_end as usize);
+        let wellformed = v1.0 <= v1.1 && v1.1 <= len && v2.0 <= v2.1 && v2.1 <= len;
+        if !wellformed {
+            // adversarial views (outside the buffer): only the decision and the result are compared with the model
+            ctx.count("c05.views.adversarial_ok");
+        } else if vb > ve || ve > after.len() {
+            ctx.fail(P, "views_result_in_buffer", name, format!("view ({}, {}) outside buffer of {}", vb, ve, after.len()), input.clone());
+        } else {
+            // set semantics: the resulting view holds exactly the trains of both views; no stray sentinel
+            ctx.checked(P, "views_union");
+            let mut want: Vec<usize> = tb[v1.0..v1.1].iter().chain(tb[v2.0..v2.1].iter()).copied().collect();
+            want.sort();
+            want.dedup();
+            let mut got: Vec<usize> = after[vb..ve].to_vec();
+            got.sort();
+            got.dedup();
+            if want != got {
+                ctx.fail(P, "views_union", name, format!("view content {:?} != union {:?}", got, want), input);
+            }
+            if after.len() > len { ctx.count("c05.views.grew"); }
+        }
+    }
+}
+
+/// Arguments on which the model predicts `oob` (raw access out of range = UB): `Range(min, diff)` with
+/// `min >= 2^32`, which `LinkOptType::new` never produces.  Executed in a child process; the debug build's
+/// `get_unchecked` precondition check aborts it.
+fn ub_probe_child() {
+    if let Ok(spec) = std::env::var("VERIF_C05_UBPROBE") {
+        let v: Vec<usize> = spec.split(',').filter_map(|x| x.parse().ok()).collect();
+        // spec: split, sentinel, min, diff, path...
+        let mut p: Vec<LinkIdx> = v[4..].iter().map(|&x| LinkIdx::new(x as u32)).collect();
+        let bl: Vec<TrainIdx> = vec![None; 64];
+        let res = std::panic::catch_unwind(std::panic::AssertUnwindSafe(|| fp::verif_find_train_intersect(v[0], v[1], (2, v[2], v[3]), &mut p, &bl)));
+        std::process::exit(if res.is_ok() { 0 } else { 3 });
+    }
+}
+
+fn op_ub_probe(ctx: &mut Ctx, r: &mut Rng) {
+    let n = r.usize(2, 6);
+    let path: Vec<usize> = (0..n).map(|_| r.usize(1, 9)).collect();
+    let sentinel = n - 1;
+    let split = r.usize(0, sentinel - 1);
+    let min = (1usize << 32) * r.usize(1, 3) + r.usize(1, 9);
+    let diff = r.usize(0, 16);
+    let spec: Vec<String> = [split, sentinel, min, diff].iter().chain(path.iter()).map(|x| x.to_string()).collect();
+    let exe = match std::env::current_exe() {
+        Ok(e) => e,
+        Err(_) => return,
+    };
+    let st = std::process::Command::new(exe)
+        .args(["run", "c05", "--out", "/tmp"])
+        .env("VERIF_C05_UBPROBE", spec.join(","))
+        .stdout(std::process::Stdio::null())
+        .stderr(std::process::Stdio::null())
+        .status();
+    let ans = match st {
+        Ok(s) if s.code() == Some(0) => "ok-returned".to_string(),
+        Ok(s) if s.code() == Some(3) => "panic".to_string(),
+        Ok(s) if s.code().is_none() => "abort".to_string(), // killed by a signal (SIGABRT from the UB check)
+        _ => return,
+    };
+    let blocked = vec![0usize; 64];
+    ctx.op(P, "c05_find_int", &format!("{} {} 2 {} {} {} {}", split, sentinel, min, diff, nats(&path), nats(&blocked)), &ans);
+    ctx.count(&format!("c05.ub_probe.{}", ans));
+}
+
+// ------------------------------------------------------------------------------------------------
+// 2. scenarios, plan re-check
+// ------------------------------------------------------------------------------------------------
+
+fn gen_sc(r: &mut Rng, max_trains: usize) -> (Scenario, &'static str) {
+    let class = r.below(5);
+    if class == 0 {
+        return (gen_scenario(r, max_trains), "base");
+    }
+    let n_main = r.usize(3, 12);
     let mut siding_at: Vec<usize> = vec![];
     let p = if class == 2 { 0.0 } else { 0.7 };
     let mut k = 1;
-    while k + 1 < n_main { if r.chance(p) { siding_at.push(k); k += 2; } else { k += 1; } }
+    while k + 1 < n_main {
+        if r.chance(p) {
+            siding_at.push(k);
+            k += 2;
+        } else {
+            k += 1;
+        }
+    }
     let lock = r.chance(0.3);
     let dn = gen_disp_net(r, n_main, &siding_at, lock);
-    let nt = r.usize(2, 8);
-    let mut trains = vec![]; let mut dirs = vec![];
-    let window = *r.pick(&[0i64, 2, 10, 30]);
-    let interior = r.chance(0.5);
+    let nt = r.usize(if class == 2 { 2 } else { 1 }, max_trains);
+    let mut trains = vec![];
+    let mut dirs = vec![];
+    // class 2: no sidings, opposing trains, same departure time (deadlock candidate)
+    let window = if class == 2 { 0 } else { *r.pick(&[0i64, 2, 10, 30]) };
+    let interior = class == 4;
     for t in 0..nt {
-        let east = if class == 3 { t % 2 == 0 } else { r.chance(0.5) };
+        let east = if class == 3 || class == 2 { t % 2 == 0 } else { r.chance(0.5) };
         let (mut i, mut j) = (0usize, n_main - 1);
-        if interior { i = r.usize(0, n_main - 2); j = r.usize(i + 1, n_main - 1); }
+        if interior {
+            i = r.usize(0, n_main - 2);
+            j = r.usize(i + 1, n_main - 1);
+        }
         let pickl = |r: &mut Rng, k: usize, fwd: bool| -> Vec<u32> {
-            // main link k, or the siding parallel to it, or both
             let sid = dn.sidings.iter().find(|s| s.0 == k).map(|s| if fwd { s.1 } else { s.2 });
             let main = if fwd { dn.main_fwd[k] } else { dn.main_rev[k] };
-            match (sid, r.below(4)) { (Some(x), 0) => vec![x], (Some(x), 1) => vec![main, x], _ => vec![main] }
+            match (sid, r.below(4)) {
+                (Some(x), 0) => vec![x],
+                (Some(x), 1) => vec![main, x],
+                _ => vec![main],
+            }
         };
         let (o, d) = if east { (pickl(r, i, true), pickl(r, j, true)) } else { (pickl(r, j, false), pickl(r, i, false)) };
         let depart = r.range(0, window) as f64 * 60.0;
         trains.push(gen_train(r, &format!("T{}", t + 1), o.iter().map(|&l| location("O", l)).collect(), d.iter().map(|&l| location("D", l)).collect(), depart));
         dirs.push(east);
     }
-    Scenario { dn, trains, dirs }
+    (Scenario { dn, trains, dirs }, ["base", "long", "no_siding_opposing_same_time", "alternating", "interior_multi_od"][class as usize])
 }
 
-pub fn run(ctx: &mut Ctx, r: &mut Rng, tier: &str) {
-    let n = if tier == "thorough" { 400 } else { 40 };
-    for _ in 0..n {
-        let mut rr = r.fork();
-        let sc = gen_sc(&mut rr);
-        if sc.dn.net.validate().is_err() { ctx.count("c05.net_invalid"); continue; }
-        let mut ets = vec![];
-        let mut ok = true;
-        for t in &sc.trains {
-            match guard(|| make_est_times(t.clone(), &sc.dn.net)) {
-                Some(Ok((et, _))) => { ets.push(et); }
-                _ => { ok = false; break; }
+/// minimum arrival time at an Arrive node of link `b`, free running from est node `j` reached at `t`
+/// (`+ time_to_next` along idx_next, `+ 0` along idx_next_alt), through non-Arrive nodes only
+fn hop_min(est: &[EstTime], b: usize, j: usize, t: f64, fuel: usize, best: &mut Option<f64>) {
+    if fuel == 0 || j >= est.len() {
+        return;
+    }
+    let m = &est[j];
+    if m.link_event.est_type == EstType::Arrive {
+        if m.link_event.link_idx.idx() == b && !t.is_nan() && best.map_or(true, |x| t < x) {
+            *best = Some(t);
+        }
+        return;
+    }
+    if m.idx_next != EST_IDX_NA {
+        hop_min(est, b, m.idx_next as usize, t + m.time_to_next.value, fuel - 1, best);
+    }
+    if m.idx_next_alt != EST_IDX_NA {
+        hop_min(est, b, m.idx_next_alt as usize, t, fuel - 1, best);
+    }
+}
+
+/// earliest free-running arrival at link `b` after arriving on link `a` at `ta`; None = no est path a → b
+fn hop_free(est: &[EstTime], a: usize, ta: f64, b: usize) -> Option<f64> {
+    let mut best = None;
+    for n in est.iter() {
+        if n.link_event.est_type == EstType::Arrive && n.link_event.link_idx.idx() == a {
+            if n.idx_next != EST_IDX_NA {
+                hop_min(est, b, n.idx_next as usize, ta + n.time_to_next.value, est.len(), &mut best);
+            }
+            if n.idx_next_alt != EST_IDX_NA {
+                hop_min(est, b, n.idx_next_alt as usize, ta, est.len(), &mut best);
             }
         }
-        if !ok { ctx.count("c05.est_fail"); ctx.sample("c05.est_fail", json!(last_panic())); continue; }
-        let (tx, rx) = std::sync::mpsc::channel();
+    }
+    best
+}
+
+type Route = Vec<(usize, f64)>;
+
+/// the clauses of C05 on one route; returns the violated clauses
+fn check_route(net: &[Link], tr: &SpeedLimitTrainSim, est: &[EstTime], rt: &Route) -> Vec<(&'static str, String)> {
+    let mut bad = vec![];
+    if rt.is_empty() {
+        bad.push(("route_missing", "empty route".to_string()));
+        return bad;
+    }
+    let (l0, t0) = rt[0];
+    if !tr.origs.iter().any(|o| o.link_idx.idx() == l0) {
+        bad.push(("starts_on_origin", format!("first link {} not an origin", l0)));
+    }
+    if !(tr.state.time.value <= t0) {
+        bad.push(("departs_not_early", format!("first time {} before departure {}", t0, tr.state.time.value)));
+    }
+    let ln = rt[rt.len() - 1].0;
+    if !tr.dests.iter().any(|d| d.link_idx.idx() == ln) {
+        bad.push(("ends_on_destination", format!("last link {} not a destination", ln)));
+    }
+    for w in rt.windows(2) {
+        let ((a, ta), (b, tb)) = (w[0], w[1]);
+        let conn = b != 0 && a < net.len() && (net[a].idx_next.idx() == b || net[a].idx_next_alt.idx() == b);
+        if !conn {
+            bad.push(("contiguous", format!("link {} does not lead to link {}", a, b)));
+        }
+        if !(ta <= tb) {
+            bad.push(("times_monotone", format!("arrival {} at link {} after arrival {} at next link {}", ta, a, tb, b)));
+        }
+        match hop_free(est, a, ta, b) {
+            Some(tmin) if tmin <= tb => {}
+            Some(tmin) => bad.push(("hop_not_faster_than_free_run", format!("hop {}@{} -> {}@{} faster than free running (earliest {})", a, ta, b, tb, tmin))),
+            None => bad.push(("hop_not_faster_than_free_run", format!("no estimated-time path from link {} to link {}", a, b))),
+        }
+    }
+    bad
+}
+
+fn plan_valid(net: &[Link], trains: &[SpeedLimitTrainSim], ets: &[EstTimeNet], plan: &[Route]) -> bool {
+    plan.len() == trains.len() && (0..plan.len()).all(|i| check_route(net, &trains[i], &ets[i].val, &plan[i]).is_empty())
+}
+
+fn est_type_no(t: EstType) -> u8 {
+    match t {
+        EstType::Arrive => 0,
+        EstType::Clear => 1,
+        EstType::Fake => 2,
+    }
+}
+
+fn scenario_tok(net: &[Link], trains: &[SpeedLimitTrainSim], ets: &[EstTimeNet]) -> String {
+    let adj = seq(net, |l| format!("{} {}", l.idx_next.idx(), l.idx_next_alt.idx()));
+    let tr = seq(&(0..trains.len()).collect::<Vec<_>>(), |&i| {
+        let t = &trains[i];
+        format!(
+            "{} {} {} {}",
+            seq(&t.origs, |o| o.link_idx.idx().to_string()),
+            seq(&t.dests, |o| o.link_idx.idx().to_string()),
+            f(t.state.time.value),
+            seq(&ets[i].val, |e| format!("{} {} {} {} {}", e.idx_next, e.idx_next_alt, f(e.time_to_next.value), e.link_event.link_idx.idx(), est_type_no(e.link_event.est_type)))
+        )
+    });
+    format!("{} {}", adj, tr)
+}
+fn plan_tok(plan: &[Route]) -> String {
+    seq(plan, |rt| seq(rt, |x| format!("{} {}", x.0, f(x.1))))
+}
+
+fn prev_f(x: f64) -> f64 {
+    if x > 0.0 { f64::from_bits(x.to_bits() - 1) } else { x - 1e-9 }
+}
+
+/// mutated copies of a valid plan: most are invalid, some sit exactly on a boundary
+fn mutate_plan(r: &mut Rng, plan: &[Route], trains: &[SpeedLimitTrainSim], ets: &[EstTimeNet], n_links: usize) -> (Vec<Route>, &'static str) {
+    let mut p: Vec<Route> = plan.to_vec();
+    let ti = r.usize(0, p.len() - 1);
+    let kind = r.below(11);
+    let len = p[ti].len();
+    match kind {
+        0 => { p.pop(); (p, "drop_last_route") }
+        1 => { p[ti].clear(); (p, "empty_route") }
+        2 if len >= 2 => {
+            let k = r.usize(0, len - 2);
+            let a = p[ti][k].1;
+            p[ti][k].1 = p[ti][k + 1].1;
+            p[ti][k + 1].1 = a;
+            (p, "swap_times")
+        }
+        3 if len >= 2 => {
+            // halve one hop and shift the rest
+            let k = r.usize(0, len - 2);
+            let cut = (p[ti][k + 1].1 - p[ti][k].1) * 0.5;
+            for x in p[ti][k + 1..].iter_mut() { x.1 -= cut; }
+            (p, "halve_hop")
+        }
+        4 if len >= 3 => { let k = r.usize(1, len - 2); p[ti][k].0 = r.usize(1, n_links - 1); (p, "teleport") }
+        5 if len >= 1 => { p[ti][0].1 = trains[ti].state.time.value - 1.0; (p, "early_departure") }
+        6 if len >= 1 => { p[ti][0].0 = r.usize(1, n_links - 1); (p, "other_origin") }
+        7 => { let x = p[ti].clone(); p.push(x); (p, "extra_route") }
+        8 if len >= 2 => {
+            // exactly the free-running time for one hop (boundary: still valid for that hop)
+            let k = r.usize(0, len - 2);
+            if let Some(tmin) = hop_free(&ets[ti].val, p[ti][k].0, p[ti][k].1, p[ti][k + 1].0) {
+                let d = p[ti][k + 1].1 - tmin;
+                p[ti][k + 1].1 = tmin;
+                for x in p[ti][k + 2..].iter_mut() { x.1 -= d; }
+            }
+            (p, "hop_exactly_free_run")
+        }
+        9 if len >= 2 => {
+            let k = r.usize(0, len - 2);
+            if let Some(tmin) = hop_free(&ets[ti].val, p[ti][k].0, p[ti][k].1, p[ti][k + 1].0) {
+                p[ti][k + 1].1 = prev_f(tmin);
+            }
+            (p, "hop_one_ulp_too_fast")
+        }
+        10 if len >= 2 => { p[ti].pop(); (p, "stops_short") }
+        _ => { p.swap(0, ti); (p, "swap_routes") }
+    }
+}
+
+// ------------------------------------------------------------------------------------------------
+// 3. the outer loop of run_dispatch, re-driven through the public TrainDisp API
+// ------------------------------------------------------------------------------------------------
+
+#[derive(Clone, Debug)]
+struct PopRec {
+    train: usize,
+    blocked: bool,
+    finished: bool,
+    time: f64,
+    parked: bool,
+}
+
+#[derive(Debug)]
+enum ManualEnd {
+    Ok(Vec<Vec<LinkIdxTime>>),
+    Stuck(Vec<usize>),
+    Err(String),
+    Budget,
+}
+
+struct Manual {
+    end: ManualEnd,
+    pops: Vec<PopRec>,
+    /// violations of the bookkeeping clauses seen while driving
+    bad: Vec<(&'static str, String)>,
+    /// est_idx / time_pass of every dispatch node of every train at the end
+    disp_paths: Vec<Vec<(usize, f64)>>,
+}
+
+/// copy of the private `check_deadlock`
+fn check_deadlock_m(tds: &mut [TrainDisp], links_blocked: &[TrainIdx], mut begin: usize, moved: TrainIdx, is_local: bool) -> Result<(bool, usize), String> {
+    let mut has_deadlock = false;
+    let mut errors: Vec<String> = vec![];
+    let mut link_idxs_blocked = vec![];
+    tds[tval(&moved)].swap_link_idxs_blocking(&mut link_idxs_blocked);
+    for (idx, td) in tds.iter_mut().enumerate().skip(begin) {
+        if !td.is_finished() {
+            if idx != tval(&moved) {
+                match td.update_free_path(moved, &link_idxs_blocked, is_local, links_blocked) {
+                    Ok(FreePathStatus::Blocked) => has_deadlock = true,
+                    Ok(_) => {}
+                    Err(e) => errors.push(format!("{:?}", e)),
+                }
+            }
+        } else if idx == begin {
+            begin += 1;
+        }
+    }
+    tds[tval(&moved)].swap_link_idxs_blocking(&mut link_idxs_blocked);
+    if !errors.is_empty() {
+        Err(errors.join(" | "))
+    } else {
+        Ok((has_deadlock, begin))
+    }
+}
+
+/// line-by-line copy of `run_dispatch` (dispatch.rs) with the queue kept as a plain vector
+fn manual_dispatch(net: &[Link], trains: &[SpeedLimitTrainSim], ets: Vec<EstTimeNet>) -> Manual {
+    let n = trains.len();
+    let mut m = Manual { end: ManualEnd::Budget, pops: vec![], bad: vec![], disp_paths: vec![] };
+    let mut tds = Vec::with_capacity(n + 1);
+    tds.push(TrainDisp::default());
+    for (idx, (slts, et)) in trains.iter().zip(ets.into_iter()).enumerate() {
+        match TrainDisp::new(slts.train_id.clone(), tidx(idx as u64 + 1), slts.state.time, 8.0 * uc::MIN, 30.0 * uc::MI, 10.0 * uc::MI, 0.5 * uc::MPH / uc::S, et) {
+            Ok(td) => tds.push(td),
+            Err(e) => {
+                m.end = ManualEnd::Err(format!("{:?}", e));
+                return m;
+            }
+        }
+    }
+    let mut auths = vec![
+        vec![DispAuth {
+            arrive_entry: f64::NEG_INFINITY * uc::S,
+            arrive_exit: f64::NEG_INFINITY * uc::S,
+            clear_entry: f64::NEG_INFINITY * uc::S,
+            clear_exit: f64::NEG_INFINITY * uc::S,
+            offset_front: f64::INFINITY * uc::M,
+            offset_back: f64::INFINITY * uc::M,
+            train_idx: None,
+        }];
+        net.len()
+    ];
+    let mut links_blocked: Vec<TrainIdx> = vec![None; net.len()];
+    let mut begin = 1usize;
+    // queue: (time, train); parked: (time when parked, train)
+    let mut queue: Vec<(f64, usize)> = (1..=n).map(|i| (tds[i].time_update().value, i)).collect();
+    let mut parked: Vec<(f64, usize)> = vec![];
+    let mut finished: Vec<usize> = vec![];
+    let mut has_deadlock = false;
+    let mut outer = 0usize;
+    while !queue.is_empty() {
+        outer += 1;
+        if outer > 200_000 {
+            return m;
+        }
+        // pop: smallest time, then smallest train index
+        let mut k = 0;
+        for i in 1..queue.len() {
+            let (a, b) = (queue[i], queue[k]);
+            if a.0 < b.0 || (a.0 == b.0 && a.1 < b.1) {
+                k = i;
+            }
+        }
+        let (_, cur) = queue.swap_remove(k);
+        let curi = tidx(cur as u64);
+        let mut inner = 0usize;
+        loop {
+            inner += 1;
+            if inner > 100_000 {
+                return m;
+            }
+            if tds[cur].advance(&mut auths, &mut links_blocked, net) {
+                match check_deadlock_m(&mut tds, &links_blocked, begin, curi, true) {
+                    Ok((h, b)) => { has_deadlock = h; begin = b; }
+                    Err(e) => { m.end = ManualEnd::Err(e); return m; }
+                }
+                if tds[cur].is_finished() {
+                    assert!(!has_deadlock, "Train {} exited but there was deadlock!", cur);
+                    tds[cur].fix_advance();
+                    break;
+                }
+                if has_deadlock && tds[cur].is_blocked() {
+                    tds[cur].rewind(&mut auths, &mut links_blocked, net);
+                    match check_deadlock_m(&mut tds, &links_blocked, begin, curi, false) {
+                        Ok((h, b)) => { has_deadlock = h; begin = b; }
+                        Err(e) => { m.end = ManualEnd::Err(e); return m; }
+                    }
+                    assert!(!has_deadlock, "Train {} was rewound to the last known good position but there was still deadlock!", cur);
+                    break;
+                }
+            }
+            if !has_deadlock {
+                tds[cur].fix_advance();
+                break;
+            }
+        }
+        let (bl, fi, tu) = (tds[cur].is_blocked(), tds[cur].is_finished(), tds[cur].time_update().value);
+        // bookkeeping clause: the popped train is in no other container
+        if parked.iter().any(|x| x.1 == cur) || finished.contains(&cur) || queue.iter().any(|x| x.1 == cur) {
+            m.bad.push(("accounting_exactly_one", format!("train {} popped while also parked/finished/queued", cur)));
+        }
+        let park = bl && !fi;
+        m.pops.push(PopRec { train: cur, blocked: bl, finished: fi, time: tu, parked: park });
+        if park {
+            parked.push((tu, cur));
+        } else {
+            if !fi {
+                queue.push((tu, cur));
+            } else {
+                finished.push(cur);
+            }
+            for (t0, j) in parked.drain(..) {
+                let tj = tds[j].time_update().value;
+                if tj != t0 {
+                    m.bad.push(("parked_time_unchanged", format!("train {} was parked with time_update {} and is requeued with {}", j, t0, tj)));
+                }
+                queue.push((tj, j));
+            }
+        }
+        let mut all: Vec<usize> = queue.iter().map(|x| x.1).chain(parked.iter().map(|x| x.1)).chain(finished.iter().copied()).collect();
+        all.sort();
+        if all != (1..=n).collect::<Vec<_>>() {
+            m.bad.push(("accounting_exactly_one", format!("queue/parked/finished = {:?}", all)));
+        }
+    }
+    // observation of the final dispatch paths (private fields, through Serialize)
+    for td in &tds[1..] {
+        let v = serde_json::to_value(td).unwrap_or(serde_json::Value::Null);
+        let dp: Vec<(usize, f64)> = v["disp_path"]
+            .as_array()
+            .map(|a| a.iter().map(|x| (x["est_idx"].as_u64().unwrap_or(0) as usize, x["time_pass"].as_f64().unwrap_or(f64::INFINITY))).collect())
+            .unwrap_or_default();
+        m.disp_paths.push(dp);
+    }
+    if !parked.is_empty() {
+        m.end = ManualEnd::Stuck(parked.iter().map(|x| x.1).collect());
+    } else {
+        m.end = ManualEnd::Ok(tds[1..].iter().map(|x| x.calc_timed_path()).collect());
+    }
+    m
+}
+
+fn to_routes(plan: &[Vec<LinkIdxTime>]) -> Vec<Route> {
+    plan.iter().map(|p| p.iter().map(|x| (x.link_idx.idx(), x.time.value)).collect()).collect()
+}
+
+/// clause name for a panic of run_dispatch on valid inputs (one per distinct assertion)
+fn panic_clause(msg: &str) -> &'static str {
+    if msg.contains("exited but there was deadlock") {
+        "panic_exited_but_deadlock"
+    } else if msg.contains("rewound to the last known good position") {
+        "panic_rewound_still_deadlock"
+    } else if msg.contains("has a timed free node") {
+        "panic_timed_free_node"
+    } else if msg.contains("cannot rewind after exiting") {
+        "panic_rewind_after_exit"
+    } else if msg.contains("invalid new offset") {
+        "panic_rewind_invalid_offset"
+    } else if msg.contains("was placed prior to the front of the next train") {
+        "panic_back_before_next_front"
+    } else if msg.contains("was placed past the back of train") {
+        "panic_front_past_back"
+    } else if msg.contains("free_path.rs") {
+        "panic_in_update_free_path"
+    } else if msg.contains("advance_rewind.rs") {
+        "panic_in_advance_rewind"
+    } else if msg.contains("unsafe precondition") {
+        "panic_unsafe_precondition"
+    } else {
+        "panic_other"
+    }
+}
+
+fn scenario_json(sc: &Scenario, class: &str, seed: u64) -> serde_json::Value {
+    json!({
+        "generator": "b_c05::gen_sc", "class": class, "case_seed": seed,
+        "network": sc.dn.net.iter().map(|l| json!({"idx": l.idx_curr.idx(), "next": l.idx_next.idx(), "next_alt": l.idx_next_alt.idx(), "prev": l.idx_prev.idx(), "prev_alt": l.idx_prev_alt.idx(), "flip": l.idx_flip.idx(), "len_m": l.length.value, "lockout": l.link_idxs_lockout.iter().map(|x| x.idx()).collect::<Vec<_>>(),
+            "speed": l.speed_set.as_ref().and_then(|s| s.speed_limits.first().map(|x| x.speed.value)), "elevs": l.elevs.iter().map(|e| (e.offset.value, e.elev.value)).collect::<Vec<_>>()})).collect::<Vec<_>>(),
+        "trains": sc.trains.iter().map(|t| json!({"id": t.train_id, "origs": t.origs.iter().map(|o| o.link_idx.idx()).collect::<Vec<_>>(), "dests": t.dests.iter().map(|o| o.link_idx.idx()).collect::<Vec<_>>(), "depart_s": t.state.time.value, "length_m": t.state.length.value, "mass_kg": t.state.mass_static.value, "n_locos": t.loco_con.loco_vec.len()})).collect::<Vec<_>>(),
+    })
+}
+
+fn run_scenario(ctx: &mut Ctx, rr: &mut Rng, max_trains: usize, budget_s: u64) {
+    let case_seed = rr.0;
+    let (sc, class) = gen_sc(rr, max_trains);
+    ctx.count(&format!("c05.scenario.class.{}", class));
+    if sc.dn.net.validate().is_err() {
+        ctx.count("c05.scenario.net_invalid");
+        return;
+    }
+    let mut ets: Vec<EstTimeNet> = vec![];
+    for t in &sc.trains {
+        match guard(|| make_est_times(t.clone(), &sc.dn.net)) {
+            Some(Ok((et, _))) => ets.push(et),
+            Some(Err(_)) => { ctx.count("c05.scenario.est_err"); return; }
+            None => { ctx.count("c05.scenario.est_panic"); return; }
+        }
+    }
+    let n = sc.trains.len();
+    ctx.count(&format!("c05.scenario.trains.{}", n));
+    ctx.count(&format!("c05.scenario.sidings.{}", sc.dn.sidings.len().min(4)));
+    let n_east = sc.dirs.iter().filter(|&&d| d).count();
+    ctx.count(if n_east == 0 || n_east == n { "c05.scenario.one_direction" } else { "c05.scenario.both_directions" });
+    let mut deps: Vec<u64> = sc.trains.iter().map(|t| t.state.time.value.to_bits()).collect();
+    deps.sort();
+    deps.dedup();
+    ctx.count(if deps.len() < n { "c05.scenario.some_equal_departures" } else { "c05.scenario.distinct_departures" });
+    let input = scenario_json(&sc, class, case_seed);
+
+    // ---- the real run_dispatch under a watchdog
+    let (tx, rx) = std::sync::mpsc::channel();
+    {
         let net = sc.dn.net.clone();
         let trains = sc.trains.clone();
         let e2 = ets.clone();
         std::thread::spawn(move || {
             let res = guard(|| run_dispatch(&net, &trains, e2, false, false));
-            let _ = tx.send(res.map(|x| x.map_err(|e| format!("{:?}", e))));
+            let msg = if res.is_none() { last_panic() } else { String::new() };
+            let _ = tx.send((res.map(|x| x.map_err(|e| format!("{:?}", e))), msg));
         });
-        match rx.recv_timeout(std::time::Duration::from_secs(10)) {
-            Ok(Some(Ok(_plan))) => ctx.count("c05.ok"),
-            Ok(Some(Err(e))) => { ctx.count("c05.err"); ctx.sample("c05.err", json!(e.chars().take(300).collect::<String>())); }
-            Ok(None) => { ctx.count("c05.panic"); let m = last_panic(); ctx.count(&format!("c05.panic.{}", m.chars().take(120).collect::<String>())); ctx.sample("c05.panic", json!({"msg": m, "trains": sc.trains.len(), "sidings": sc.dn.sidings.len(), "n_main": sc.dn.main_fwd.len(), "dirs": sc.dirs})); }
-            Err(_) => { ctx.count("c05.hang"); ctx.sample("c05.hang", json!({"trains": sc.trains.len(), "sidings": sc.dn.sidings.len(), "dirs": sc.dirs})); }
+    }
+    ctx.checked(P, "terminates_within_budget");
+    ctx.checked(P, "no_panic_on_valid_input");
+    let (real, pmsg) = match rx.recv_timeout(std::time::Duration::from_secs(budget_s)) {
+        Ok(x) => x,
+        Err(_) => {
+            ctx.count("c05.dispatch.hang");
+            ctx.fail(P, "hang", "scenario", format!("run_dispatch did not return within {} s ({} trains, {} sidings)", budget_s, n, sc.dn.sidings.len()), input);
+            return;
         }
+    };
+    let net = &sc.dn.net;
+    match &real {
+        None => {
+            ctx.count("c05.dispatch.panic");
+            let cl = panic_clause(&pmsg);
+            ctx.count(&format!("c05.dispatch.{}", cl));
+            ctx.fail(P, cl, "scenario", format!("run_dispatch panicked on inputs accepted by validation and make_est_times: {}", pmsg), input.clone());
+        }
+        Some(Err(e)) => {
+            ctx.count("c05.dispatch.err");
+            ctx.checked(P, "error_names_stuck_trains");
+            // "The following trains got stuck! [Some(2), Some(5)]"
+            let named: Vec<usize> = if e.contains("The following trains got stuck!") {
+                e.split("Some(").skip(1).filter_map(|s| s.split(')').next().and_then(|x| x.parse().ok())).collect()
+            } else {
+                vec![]
+            };
+            if named.is_empty() || named.iter().any(|&t| t == 0 || t > n) {
+                ctx.count("c05.dispatch.err_other");
+                ctx.fail(P, "error_names_stuck_trains", "scenario", format!("run_dispatch failed without naming the trains that could not be routed: {}", e.chars().take(300).collect::<String>()), input.clone());
+            } else {
+                ctx.count("c05.dispatch.err_stuck");
+                ctx.sample("c05.stuck", json!({"error": e.chars().take(200).collect::<String>(), "trains": n, "class": class}));
+            }
+        }
+        Some(Ok(plan)) => {
+            ctx.count("c05.dispatch.ok");
+            let routes = to_routes(plan);
+            ctx.checked(P, "one_route_per_train");
+            if routes.len() != n {
+                ctx.fail(P, "one_route_per_train", "scenario", format!("{} routes for {} trains", routes.len(), n), input.clone());
+            }
+            let mut uses_siding = false;
+            let mut waited = false;
+            for (i, rt) in routes.iter().enumerate().take(n) {
+                for cl in ["route_missing", "starts_on_origin", "departs_not_early", "ends_on_destination", "contiguous", "times_monotone", "hop_not_faster_than_free_run"] {
+                    ctx.checked(P, cl);
+                }
+                for (cl, detail) in check_route(net, &sc.trains[i], &ets[i].val, rt) {
+                    ctx.fail(P, cl, "scenario", format!("train {}: {}", i + 1, detail), json!({"scenario": input, "plan": routes}));
+                }
+                ctx.checked(P, "times_finite");
+                if rt.iter().any(|x| !x.1.is_finite()) {
+                    ctx.fail(P, "times_finite", "scenario", format!("train {}: non-finite arrival time in {:?}", i + 1, rt), json!({"scenario": input, "plan": routes}));
+                }
+                if rt.iter().any(|x| sc.dn.sidings.iter().any(|s| s.1 as usize == x.0 || s.2 as usize == x.0)) {
+                    uses_siding = true;
+                }
+                if let Some(first) = rt.first() {
+                    if first.1 > sc.trains[i].state.time.value {
+                        waited = true;
+                    }
+                }
+                ctx.count_n("c05.plan.segments", rt.len() as u64);
+            }
+            if uses_siding { ctx.count("c05.plan.uses_siding"); }
+            if waited { ctx.count("c05.plan.held_at_origin"); }
+            ctx.sample("c05.plan", json!({"class": class, "trains": n, "sidings": sc.dn.sidings.len(), "dirs": sc.dirs, "plan": routes}));
+            // ---- the Lean decision procedure on the real plan and on mutated copies
+            if routes.len() == n {
+                let sctok = scenario_tok(net, &sc.trains, &ets);
+                let verdict = plan_valid(net, &sc.trains, &ets, &routes);
+                ctx.op(P, "c05_plan_ok", &format!("{} {}", sctok, plan_tok(&routes)), &format!("ok {}", b(verdict)));
+                ctx.count(&format!("c05.plan_ok.real.{}", verdict));
+                let nm = if n <= 4 { 4 } else { 2 };
+                for _ in 0..nm {
+                    let (mp, kind) = mutate_plan(rr, &routes, &sc.trains, &ets, net.len());
+                    let v = plan_valid(net, &sc.trains, &ets, &mp);
+                    ctx.op(P, "c05_plan_ok", &format!("{} {}", sctok, plan_tok(&mp)), &format!("ok {}", b(v)));
+                    ctx.count(&format!("c05.plan_ok.mutant.{}.{}", kind, v));
+                }
+            }
+        }
+    }
+
+    // ---- the same scenario through the manual copy of the outer loop
+    let man = guard(|| manual_dispatch(net, &sc.trains, ets.clone()));
+    ctx.checked(P, "manual_loop_equals_run_dispatch");
+    let agree = match (&man, &real) {
+        (None, None) => panic_clause(&last_panic()) == panic_clause(&pmsg),
+        (Some(m), Some(Ok(plan))) => matches!(&m.end, ManualEnd::Ok(p) if p == plan),
+        (Some(m), Some(Err(e))) => match &m.end {
+            ManualEnd::Stuck(s) => e.contains(&format!("The following trains got stuck! {:?}", s.iter().map(|&x| tidx(x as u64)).collect::<Vec<_>>())),
+            ManualEnd::Err(_) => !e.contains("got stuck"),
+            _ => false,
+        },
+        _ => false,
+    };
+    if !agree {
+        ctx.fail(P, "manual_loop_equals_run_dispatch", "scenario",
+            format!("run_dispatch and the harness copy of its outer loop disagree: real = {}, copy = {}",
+                match &real { None => format!("panic {}", pmsg), Some(Ok(p)) => format!("Ok({} routes)", p.len()), Some(Err(e)) => format!("Err({})", e.chars().take(120).collect::<String>()) },
+                match &man { None => format!("panic {}", last_panic()), Some(m) => format!("{:?}", m.end).chars().take(160).collect::<String>() }),
+            input.clone());
+        return;
+    }
+    let m = match man {
+        Some(m) => m,
+        None => return,
+    };
+    for cl in ["accounting_exactly_one", "parked_time_unchanged"] {
+        ctx.checked(P, cl);
+    }
+    for (cl, detail) in &m.bad {
+        ctx.fail(P, cl, "scenario", detail.clone(), input.clone());
+    }
+    ctx.count_n("c05.queue.pops", m.pops.len() as u64);
+    ctx.count_n("c05.queue.parks", m.pops.iter().filter(|p| p.parked).count() as u64);
+    ctx.count_n("c05.queue.finishes", m.pops.iter().filter(|p| p.finished).count() as u64);
+    // never drops a train: on exit every train finished or named
+    ctx.checked(P, "no_train_dropped");
+    let fin: Vec<usize> = m.pops.iter().filter(|p| p.finished).map(|p| p.train).collect();
+    let stuck: Vec<usize> = match &m.end {
+        ManualEnd::Stuck(s) => s.clone(),
+        _ => vec![],
+    };
+    if matches!(m.end, ManualEnd::Ok(_) | ManualEnd::Stuck(_)) {
+        let mut all: Vec<usize> = fin.iter().chain(stuck.iter()).copied().collect();
+        all.sort();
+        if all != (1..=n).collect::<Vec<_>>() {
+            ctx.fail(P, "no_train_dropped", "scenario", format!("finished {:?} + stuck {:?} is not every train 1..{}", fin, stuck, n), input.clone());
+        }
+        // queue model: pop order, parked list, result
+        let deps: Vec<f64> = sc.trains.iter().map(|t| t.state.time.value).collect();
+        let answers = seq(&m.pops, |p| format!("{} {} {}", b(p.blocked), b(p.finished), f(p.time)));
+        let pops: Vec<usize> = m.pops.iter().map(|p| p.train).collect();
+        ctx.op(P, "c05_queue", &format!("{} {}", fs(&deps), answers), &format!("ok {} done {} {}", nats(&pops), nats(&stuck), fin.len()));
+        // a proper prefix of the same execution
+        if m.pops.len() >= 2 {
+            let k = rr.usize(1, m.pops.len() - 1);
+            let answers = seq(&m.pops[..k], |p| format!("{} {} {}", b(p.blocked), b(p.finished), f(p.time)));
+            let nf = m.pops[..k].iter().filter(|p| p.finished).count();
+            ctx.op(P, "c05_queue", &format!("{} {}", fs(&deps), answers), &format!("ok {} running {}", nats(&pops[..k]), nf));
+        }
+    }
+    // hop times along the est path actually taken (exact: max and + are monotone in binary64)
+    if let ManualEnd::Ok(_) = m.end {
+        ctx.checked(P, "hop_free_time_actual_path");
+        for (i, dp) in m.disp_paths.iter().enumerate() {
+            let est = &ets[i].val;
+            for w in dp.windows(2) {
+                let ((e0, t0), (e1, t1)) = (w[0], w[1]);
+                if e0 >= est.len() {
+                    continue;
+                }
+                let free = if est[e0].idx_next as usize == e1 { t0 + est[e0].time_to_next.value } else { t0 };
+                let linked = est[e0].idx_next as usize == e1 || est[e0].idx_next_alt as usize == e1;
+                if !linked || !(free <= t1) {
+                    ctx.fail(P, "hop_free_time_actual_path", "scenario", format!("train {}: est node {}@{} -> {}@{} (linked={}, free-running arrival {})", i + 1, e0, t0, e1, t1, linked, free), input.clone());
+                    break;
+                }
+            }
+        }
+    }
+}
+
+pub fn run(ctx: &mut Ctx, r: &mut Rng, tier: &str) {
+    ub_probe_child();
+    let thorough = tier == "thorough";
+    let n_fn = if thorough { 6000 } else { 400 };
+    for _ in 0..n_fn {
+        let mut rr = r.fork();
+        op_link_opt(ctx, &mut rr);
+        op_calc_sent(ctx, &mut rr);
+        op_find_int(ctx, &mut rr);
+        op_find_int(ctx, &mut rr);
+        for w in 0..3 {
+            op_views(ctx, &mut rr, w);
+        }
+    }
+    for _ in 0..(if thorough { 12 } else { 3 }) {
+        let mut rr = r.fork();
+        op_ub_probe(ctx, &mut rr);
+    }
+    let n_sc = if thorough { 600 } else { 60 };
+    for _ in 0..n_sc {
+        let mut rr = r.fork();
+        run_scenario(ctx, &mut rr, 8, 20);
     }
 }
